@@ -10,6 +10,7 @@ import (
 	"io"
 	"os"
 	"os/signal"
+	"path/filepath"
 	"strings"
 )
 
@@ -32,6 +33,10 @@ func main() {
 		}
 	}
 	sp := os.Getenv("VERIF_PLUGIN_SCRIPT")
+	if d := os.Getenv("VERIF_PLUGIN_SCRIPT_DIR"); sp == "" && d != "" {
+		// one script per plugin name: <dir>/<argv0 base name>.json
+		sp = filepath.Join(d, filepath.Base(os.Args[0])+".json")
+	}
 	if sp == "" {
 		// default behaviour: say nothing, close the output at once, then wait for the client to close its side
 		os.Stdout.Close()
